@@ -452,6 +452,8 @@ def _judge_chunk(args):
 def tally(ck, tag, line):
     h = ck.cov.setdefault("result_histogram", {})
     parts = line.split(" | ")
+    if tag.startswith("deep-dict:"):
+        tag = ":".join(tag.split(":")[:2])
     key = tag + ":" + "".join("A" if p.startswith("ok") else "r" for p in parts)
     h[key] = h.get(key, 0) + 1
     eh = ck.cov.setdefault("error_classes", {})
@@ -521,6 +523,63 @@ def run_docs(ck, hcmd, dcmd, tagged, label, pool, chunk=1500):
             j = c02_ref.judge(small, impl) or (cls, msg)
             ck.report("obs", {"label": "monitor:" + label + ":" + ch[i][0], "ops": ["d " + vf.hexs(small)],
                               "class": j[0], "monitor": j[1], "document": repr(small)[:300], "impl": [impl[:600]]})
+
+
+# ---------------------------------------------------------------- degenerate key sets
+def chain_keys(form, n):
+    """n object names whose crit-bit tree is one long chain"""
+    if form == "a^i b":          # b, ab, aab, ...: deep along child[0]
+        return [b"a" * i + b"b" for i in range(n)]
+    if form == "a^(i+1)":        # a, aa, aaa, ...: deep along child[1]
+        return [b"a" * (i + 1) for i in range(n)]
+    if form == "bit-set":        # a common stem of '@' with one later and later bit set (6 usable bits per byte)
+        m = (n + 5) // 6 + 1
+        ks = [b"@" * m]
+        for i in range(n - 1):
+            k = bytearray(b"@" * m)
+            k[i // 6] ^= 0x20 >> (i % 6)
+            ks.append(bytes(k))
+        return ks
+    if form == "bit-clear":      # stem of 0x7F with one later and later bit cleared (7 usable bits per byte)
+        m = (n + 6) // 7 + 1
+        ks = [b"\x7f" * m]
+        for i in range(n - 1):
+            k = bytearray(b"\x7f" * m)
+            k[i // 7] ^= 0x40 >> (i % 7)
+            ks.append(bytes(k))
+        return ks
+    raise ValueError(form)
+
+
+def chain_object(keys, inner=None):
+    parts = []
+    for i, k in enumerate(keys):
+        v = inner if (inner is not None and i == len(keys) // 2) else str(i).encode()
+        parts.append(b'"' + k + b'":' + v)
+    return b"{" + b",".join(parts) + b"}"
+
+
+def degenerate_objects(rng, sizes):
+    """objects whose name sets make the crit-bit tree degenerate (depth = number of names), in
+    ascending / descending / shuffled document order, alone and nested once inside another one"""
+    out = []
+    for form in ("a^i b", "a^(i+1)", "bit-set", "bit-clear"):
+        for n in sizes:
+            base = chain_keys(form, n)
+            assert len(set(base)) == n
+            for order in ("asc", "desc", "shuffled"):
+                keys = sorted(base)
+                if order == "desc":
+                    keys.reverse()
+                elif order == "shuffled":
+                    for i in range(len(keys) - 1, 0, -1):
+                        j = rng.below(i + 1)
+                        keys[i], keys[j] = keys[j], keys[i]
+                tag = "deep-dict:%s:%d:%s" % (form, n, order)
+                out.append((tag, chain_object(keys)))
+                out.append((tag + ":nested", chain_object(keys[:max(2, n // 2)], chain_object(keys))))
+                out.append((tag + ":in-list", b"[" + chain_object(keys) + b",1]"))
+    return out
 
 
 # ---------------------------------------------------------------- context reuse
@@ -726,7 +785,9 @@ def run(ck):
                       "documents on ONE context (every directed failure that leaves containers open / a key pending / a "
                       "half-read token x every follow-up document; random histories of mutants, truncations and valid "
                       "documents; plus per sequence: default context -> parse -> json_set_options(i % 4) -> parse ...), "
-                      "each parse judged on its own; distinct = distinct byte string / sequence")
+                      "each parse judged on its own; objects with degenerate name sets (crit-bit chains a^i b, a^(i+1), "
+                      "one-bit-set / one-bit-cleared stems; 63..67, 100, 130, 200 names; ascending / descending / shuffled; "
+                      "nested; every accepted tree is iterated completely and rendered); distinct = distinct byte string / sequence")
     rng = vf.SplitMix(ck.seed)
     intensify = not ck.proof_ok
     with ProcessPoolExecutor(NPROC) as pool:
@@ -748,6 +809,9 @@ def run(ck):
         directed += [("reuse-directed", [b, a, b2]) for a in OPEN_FAILS[:12] for b in AFTER[:4] for b2 in AFTER[:4]]
         run_seqs(ck, hcmd, dcmd, directed, "directed", pool)
         run_seqs(ck, hcmd, dcmd, gen_seqs(rng, ck.scale(8000, 250000), maxdepth_reuse(ck)), "random", pool)
+        deep = degenerate_objects(rng, ck.scale([63, 64, 65, 66, 67, 100, 130, 200], [63, 64, 65, 66, 67, 68, 100, 129, 130, 200, 400]))
+        run_docs(ck, hcmd, dcmd, deep, "deep-dict", pool, chunk=24)
+        ck.cov["deep_dict_documents"] = len(deep)
         run_docs(ck, hcmd, dcmd, token_strings(ck.scale(4, 6)), "token-strings", pool, chunk=6000)
         run_docs(ck, hcmd, dcmd, table_probes(3 if (intensify or not ck.quick()) else 2), "table-probes", pool, chunk=6000)
         n = ck.scale(60000, 2000000) * (2 if intensify and ck.quick() else 1)
